@@ -221,7 +221,7 @@ Proof.
     inversion H; subst; clear H. split; [|apply Hc'].
     intros i Hin.
     match type of Hin with In _ (match ?v with _ => _ end) => destruct v as [|c v'] eqn:Ev end; [destruct Hin|].
-    destruct (starts_markup (c :: v')).
+    destruct (starts_markup d q (c :: v')).
     + destruct Hin as [E|[]]. subst i. cbn [item_ok]. rewrite app_length. destruct s; [congruence|]. simpl. lia.
     + destruct Hin as [E|[]]. subst i. apply tok_at; auto; discriminate.
 Qed.
@@ -234,10 +234,11 @@ Proof.
   intros Hte Hse. induction s as [|c s IH]; intros skip pre st Hsrc Hc i Hin; [destruct Hin|].
   assert (Hp : N.succ (N.of_nat (length pre)) = N.of_nat (length (pre ++ [c]))) by (rewrite app_length; simpl; lia).
   assert (Hsrc' : src = (pre ++ [c]) ++ s) by (rewrite <- app_assoc; exact Hsrc).
+  assert (Hne : c :: s <> []) by discriminate.
   cbn [go] in Hin. destruct skip as [|k].
   - rewrite Nat.add_0_r in Hc.
     destruct (step d q (N.of_nat (length pre)) (c :: s) st) as [[out st'] tot] eqn:E.
-    destruct (step_items_ok _ _ _ _ _ _ _ _ Hte Hse ltac:(discriminate) E Hc) as [H1 H2].
+    destruct (step_items_ok _ _ _ _ _ _ _ _ Hte Hse Hne E Hc) as [H1 H2].
     apply in_app_or in Hin as [Hin|Hin]; [subst src; apply H1; auto|].
     rewrite Hp in Hin. eapply IH; [exact Hsrc' | | exact Hin].
     rewrite app_length. simpl. lia.
@@ -269,4 +270,168 @@ Theorem lexer_error_position : forall d q src p, nonempty (d_te d) = true -> non
 Proof.
   intros d q src p Hte Hse Hin.
   exact (go_items_ok d q src Hte Hse src 0 [] ls0 eq_refl ltac:(simpl; lia) (LexErr p) Hin).
+Qed.
+
+(* ---------------------------------------------------------------- composition of offsets
+   (expression tokens: parent_token.start_index + match.start(); liquid-tag inner tokens likewise) *)
+Lemma sub_sub (src : str) a (v : str) m l :
+  sub src a (length v) = v -> m + l <= length v -> sub src (a + m) l = sub v m l.
+Proof.
+  intros Hv Hl. unfold sub in *. rewrite skipn_add.
+  transitivity (firstn l (skipn m (firstn (length v) (skipn a src)))); [|rewrite Hv; reflexivity].
+  rewrite skipn_firstn_comm, firstn_firstn. f_equal. lia.
+Qed.
+
+(* ---------------------------------------------------------------- line / column *)
+Fixpoint nsum (l : list N) : N := match l with [] => 0%N | x :: r => (x + nsum r)%N end.
+
+Lemma nsum_line_lens : forall n s, length s <= n -> forall cur,
+  nsum (line_lens cur s) = (cur + N.of_nat (length s))%N.
+Proof.
+  induction n; intros s Hn cur.
+  - destruct s; [|simpl in Hn; lia]. simpl. destruct (N.eqb_spec cur 0); simpl; lia.
+  - destruct s as [|c r]; [simpl; destruct (N.eqb_spec cur 0); simpl; lia|].
+    simpl in Hn. cbn [line_lens]. destruct (is_linebreak c).
+    + destruct r as [|c2 r2]; [simpl; lia|].
+      destruct (N.eqb c 13 && N.eqb c2 10).
+      * cbn [nsum]. rewrite IHn by (simpl in *; lia). simpl length. lia.
+      * cbn [nsum]. rewrite IHn by (simpl in *; lia). simpl length. lia.
+    + rewrite IHn by lia. simpl length. lia.
+Qed.
+
+Lemma find_line_spec : forall lens index cum lineno,
+  (cum <= index)%N -> (index < cum + nsum lens)%N ->
+  exists k c, find_line lens index cum lineno = Some ((lineno + N.of_nat k)%N, c)
+              /\ k < length lens /\ (cum + nsum (firstn k lens) + c = index)%N /\ (c < nth k lens 0)%N.
+Proof.
+  induction lens as [|x lens IH]; intros index cum lineno H1 H2; simpl in H2; [lia|].
+  cbn [find_line]. destruct (N.ltb_spec index (cum + x)) as [Hlt|Hge].
+  - exists 0, (index - cum)%N. simpl. rewrite N.add_0_r. repeat split; lia.
+  - destruct (IH index (cum + x)%N (N.succ lineno)) as (k & c & E & Hk & Hs & Hc); try lia.
+    exists (S k), c. rewrite E. simpl. repeat split; try lia. f_equal. f_equal. lia.
+Qed.
+
+(* Span.line_col / LiquidError._error_context: for every index inside the source the line/column computation
+   succeeds (no ValueError) and returns the 1-based number of the line that contains the index together with the
+   index's distance from that line's first character *)
+Theorem line_col_total : forall src index, (index < N.of_nat (length src))%N ->
+  exists k c, line_col src index = Some (N.of_nat (S k), c)
+              /\ k < length (line_lens 0 src)
+              /\ (nsum (firstn k (line_lens 0 src)) + c = index)%N
+              /\ (c < nth k (line_lens 0 src) 0)%N.
+Proof.
+  intros src index H. unfold line_col.
+  destruct (find_line_spec (line_lens 0 src) index 0 1) as (k & c & E & Hk & Hs & Hc).
+  - lia.
+  - rewrite (nsum_line_lens (length src) src (le_n _) 0). lia.
+  - exists k, c. rewrite E. repeat split; auto; try lia. f_equal. f_equal. lia.
+Qed.
+
+(* the lines partition the source *)
+Theorem line_lens_cover : forall src, nsum (line_lens 0 src) = N.of_nat (length src).
+Proof. intros. rewrite (nsum_line_lens (length src) src (le_n _) 0). lia. Qed.
+
+(* ... and outside the source it is the ValueError of the implementation *)
+Theorem line_col_out_of_range : forall src index, (N.of_nat (length src) <= index)%N -> line_col src index = None.
+Proof.
+  intros src index H. unfold line_col. pose proof (line_lens_cover src) as Hc.
+  assert (G : forall lens cum lineno, (cum + nsum lens <= index)%N -> find_line lens index cum lineno = None).
+  { induction lens as [|x lens IH]; intros cum lineno Hle; simpl in *; auto.
+    destruct (N.ltb_spec index (cum + x)); [lia|]. apply IH. lia. }
+  apply G. lia.
+Qed.
+
+(* ---------------------------------------------------------------- inner tokens of a liquid tag *)
+Lemma liquid_name_len_le marker x : liquid_name_len marker x <= length x.
+Proof.
+  unfold liquid_name_len. destruct (nonempty marker && prefixb marker x) eqn:E.
+  - apply andb_true_iff in E as [_ E]. apply prefixb_length; auto.
+  - apply word_len_le.
+Qed.
+
+Lemma line_end_bounds x a n : line_end' x = Some (a, n) -> 0 <= n /\ n <= length x.
+Proof.
+  unfold line_end', line_end. pose proof (span_len_le is_blank_cr x) as Hk.
+  pose proof (skipn_len (span_len is_blank_cr x) x) as Hl.
+  destruct (skipn (span_len is_blank_cr x) x) as [|c r] eqn:E.
+  - intros H. inversion H; subst. lia.
+  - destruct (N.eqb c nl); [|discriminate]. intros H. inversion H; subst.
+    pose proof (span_len_le (N.eqb nl) r). simpl in Hl. lia.
+Qed.
+
+Lemma liquid_match_bounds marker s no nlen eo el tot :
+  liquid_match marker s = LExpr no nlen eo el tot -> no < length s /\ (el <> 0 -> eo < length s).
+Proof.
+  unfold liquid_match.
+  set (k1 := span_len is_blank s). set (nl_ := liquid_name_len marker (skipn k1 s)).
+  pose proof (span_len_le is_blank s) as A1. fold k1 in A1.
+  pose proof (liquid_name_len_le marker (skipn k1 s)) as A2. fold nl_ in A2. rewrite skipn_len in A2.
+  assert (Hskip : forall r, match span_len is_crlf s with 0 => LIllegal | S n => LSkip (S n) end = LExpr no nlen eo el tot -> r)
+    by (intros r; destruct (span_len is_crlf s); discriminate).
+  destruct nl_ as [|n] eqn:En; [apply Hskip|].
+  set (k3 := k1 + S n + span_len is_blank (skipn (k1 + S n) s)).
+  pose proof (span_len_le is_blank (skipn (k1 + S n) s)) as A3. rewrite skipn_len in A3.
+  destruct (find_first line_end' (skipn k3 s)) as [[[j u] n']|] eqn:FF; [|apply Hskip].
+  intros H. inversion H; subst.
+  destruct (find_first_bounds line_end' 0 line_end_bounds _ _ _ _ FF) as [B1 B2]. rewrite skipn_len in B2.
+  split; [lia|]. intros Hel. unfold k3 in *. lia.
+Qed.
+
+(* a token of the inner scan: its offset relative to the liquid tag's expression lies inside the expression, and its
+   value is the text of the expression there *)
+Definition inner_ok (base : N) (expr : str) (i : item) : Prop :=
+  match i with
+  | Tok t => exists o, t_start t = (base + N.of_nat o)%N /\ o < length expr /\ sub expr o (length (t_value t)) = t_value t
+  | LexErr _ => True
+  end.
+
+Lemma inner_sub base pre s o l k : o < length s ->
+  inner_ok base (pre ++ s) (Tok {| t_kind := k; t_value := sub s o l; t_start := off (base + N.of_nat (length pre)) o |}).
+Proof.
+  intros Ho. exists (length pre + o). cbn [t_start t_value]. repeat split.
+  - unfold off. lia.
+  - rewrite app_length. lia.
+  - unfold sub. rewrite skipn_app_len_add. apply firstn_length_firstn.
+Qed.
+
+Lemma liquid_go_ok marker drop base expr : forall s skip pre, expr = pre ++ s ->
+  forall i, In i (liquid_go marker drop skip (base + N.of_nat (length pre)) s) -> inner_ok base expr i.
+Proof.
+  induction s as [|c s IH]; intros skip pre Hexpr i Hin; [destruct Hin|].
+  assert (Hp : N.succ (base + N.of_nat (length pre)) = (base + N.of_nat (length (pre ++ [c])))%N)
+    by (rewrite app_length; simpl; lia).
+  assert (Hexpr' : expr = (pre ++ [c]) ++ s) by (rewrite <- app_assoc; exact Hexpr).
+  cbn [liquid_go] in Hin. destruct skip as [|k].
+  - destruct (liquid_match marker (c :: s)) as [no nlen eo el tot|tot|] eqn:M.
+    + apply liquid_match_bounds in M as [B1 B2].
+      apply in_app_or in Hin as [Hin|Hin].
+      * destruct (drop && str_eqb (sub (c :: s) no nlen) marker); [destruct Hin|].
+        destruct Hin as [E|Hin]; [subst i expr; apply inner_sub; auto|].
+        destruct el; [destruct Hin|]. destruct Hin as [E|[]]. subst i expr. apply inner_sub. apply B2. discriminate.
+      * rewrite Hp in Hin. eapply IH; eauto.
+    + rewrite Hp in Hin. eapply IH; eauto.
+    + destruct Hin as [E|[]]. subst i. exact I.
+  - rewrite Hp in Hin. eapply IH; eauto.
+Qed.
+
+(* C20: liquid-tag inner token offsets.  If the liquid tag's expression token (value expr, start base) points at its
+   own text in the source, so does every inner tag / expression token *)
+Theorem liquid_inner_offsets : forall d (src : str) base expr ts,
+  sub src (N.to_nat base) (length expr) = expr ->
+  liquid_tokens d base expr = Ok ts -> forall t, In t ts ->
+  (N.to_nat (t_start t) < N.to_nat base + length expr) /\
+  sub src (N.to_nat (t_start t)) (length (t_value t)) = t_value t.
+Proof.
+  intros d src base expr ts Hsrc H t Hin. unfold liquid_tokens in H.
+  assert (G : forall marker drop, items_result (liquid_go marker drop 0 base expr) = Ok ts ->
+              exists o, t_start t = (base + N.of_nat o)%N /\ o < length expr /\ sub expr o (length (t_value t)) = t_value t).
+  { intros marker drop Hr. apply (items_result_in _ _ _ Hr) in Hin.
+    pose proof (liquid_go_ok marker drop base expr expr 0 [] eq_refl (Tok t)) as K. simpl in K.
+    rewrite N.add_0_r in K. apply K. exact Hin. }
+  assert (exists o, t_start t = (base + N.of_nat o)%N /\ o < length expr /\ sub expr o (length (t_value t)) = t_value t)
+    as (o & Hs & Ho & Hv) by (destruct (liquid_marker d); eapply G; eauto).
+  rewrite Hs. replace (N.to_nat (base + N.of_nat o)) with (N.to_nat base + o) by lia. split; [lia|].
+  rewrite <- Hv at 2. apply sub_sub; auto.
+  assert (length (t_value t) <= length expr - o); [|lia].
+  rewrite <- Hv. unfold sub. rewrite firstn_length, skipn_length. lia.
 Qed.
